@@ -865,7 +865,25 @@ class Unit:
             ret = (' -> (%s: %s)' % (retname, f.ret)) if f.ret else ''
             where = ('\n    ' + f.where) if f.where else ''
             ctext = self.contract_text(c) if c else ''
-            hooks.append('    fn %s%s(%s)%s%s%s;' % (f.name, f.generics, f.params, ret, where, ctext.replace('/*@CL ', '/*@HCL ')))
+            # the hook declaration inside the trait: its contract may only use trait-level vocabulary (a spec fn generic over
+            # `C: Ciphersuite` inside `trait Ciphersuite` is a cyclic self-reference for Verus), so every hook gets an abstract
+            # trait-level spec function (`hook_spec`) and `hook_ensures` clauses phrased with it; which function it *is* is
+            # fixed per "world" (lemmas/vworld.rs: default world = the default bodies below)
+            htext = ''
+            if c:
+                for hs in c.hook_spec:
+                    hooks.append('    ' + hs.strip())
+                parts = []
+                if c.hook_requires:
+                    parts.append('\n    requires')
+                    for cl in c.hook_requires:
+                        parts.append('\n        /*@HCL %s|hook_requires|%s|%d*/ (%s),' % (key, cl.name, cl.text.strip().count('\n'), cl.text.strip().rstrip(',')))
+                if c.hook_ensures:
+                    parts.append('\n    ensures')
+                    for cl in c.hook_ensures:
+                        parts.append('\n        /*@HCL %s|hook_ensures|%s|%d*/ (%s),' % (key, cl.name, cl.text.strip().count('\n'), cl.text.strip().rstrip(',')))
+                htext = ''.join(parts)
+            hooks.append('    fn %s%s(%s)%s%s%s;' % (f.name, f.generics, f.params, ret, where, htext))
             # default body as a free function
             subst = lambda t: re.sub(r'\bSelf\b', 'C', t)
             gen = f.generics
